@@ -76,3 +76,9 @@ def keys_of(ex, st, d):
 def set_or(ex, st, a, b):
     """set union of two collections (as a membership predicate carrier)"""
     return ex.set_union(ex.coerce(a, Spec("set", Spec("val")), st), b, st)
+
+
+@spec_function()
+def as_dict(ex, st, v):
+    from pyvc.values import unbox as _unbox
+    return _unbox(Spec("dict", (Spec("val"), Spec("val"))), box(v, st), st, facts=False)
